@@ -1,6 +1,10 @@
 #!/bin/sh
-# usage: tools/seedbatch.sh C11 C22 ...   (runs seedtest on /tmp/wt/<ID>/_seed/<ID>-{1,2})
-for p in "$@"; do for k in 1 2; do d=/tmp/wt/$p/_seed/$p-$k; [ -d $d ] || continue
+# usage: tools/seedbatch.sh C11 C22 ...   (runs seedtest on /tmp/wt/<ID>/_seed/<ID>-{1,2};
+#        ROUND=2 tools/seedbatch.sh C11 -> /tmp/wt/<ID>_r2/_seed/<ID>-{3,4})
+R=${ROUND:-1}
+for p in "$@"; do for k in $((2*R-1)) $((2*R)); do
+if [ "$R" = 1 ]; then d=/tmp/wt/$p/_seed/$p-$k; else d=/tmp/wt/${p}_r$R/_seed/$p-$k; fi
+[ -d $d ] || continue
 python3 tools/seedtest.py $d --keep-as $p-$k 2>&1 | python3 -c "
 import sys,json
 t=sys.stdin.read()
